@@ -162,6 +162,13 @@ inductive Event where
   | egress (e : Egress)
 deriving Repr, DecidableEq
 
+/-- `tcp_forwarder::io_to_connection_error`: how the OS error of an outbound connect is classified
+(the lists are read from the source on every run) -/
+def connErrOfErrno (e : Nat) : ConnErr :=
+  if unreachableErrnos.contains e then .hostUnreachable
+  else if timedOutErrnos.contains e then .timeout
+  else .io
+
 def failWith (e : ConnErr) : Event := .response ⟨statusOf e, warnOf e⟩
 def ok200 : Event := .response ⟨200, []⟩
 
